@@ -1,3 +1,3 @@
--- This module serves as the root of the `SierraModel` library.
--- Import modules here that should be built as part of the library.
-import SierraModel.Basic
+-- Root of the `SierraModel` library: executable models (import-free) and property theorems.
+import SierraModel.Topology.Distribute
+import SierraModel.Props.C24
